@@ -188,6 +188,9 @@ func resolveTypes(rootPkg *packages.Package, endpoints []Endpoint) {
 			}
 			required = append(required, param.type_)
 		}
+		if field := endpoint.Contract.InputForm.JSON; field.Name != "" {
+			required = append(required, field.type_)
+		}
 	}
 
 	// performs the analysis
